@@ -106,4 +106,9 @@ Inductive op :=
 | OEnqueue (e:evt)
 | ODrain (val:list nat) (plan:list (nat * cmd))
 | ODrain1 (val:list nat) (plan:list (nat * cmd))
-| OReset.                 (* destroy the machine object and construct a fresh one *)
+| OReset                  (* destroy the machine object and construct a fresh one *)
+| OOn (k:nat) (o:op)      (* the operation applied to machine object k (object 0 is the default) *)
+| OCopy (dst src:nat)     (* object dst := new machine copy-constructed from (const) object src *)
+| OAssign (dst src:nat)   (* object dst = object src (copy assignment; dst exists) *)
+| OMove (dst src:nat)     (* backmp11: object dst := machine move-constructed from object src *)
+| OSaveLoad (dst src:nat). (* back / back11: object dst := fresh machine loaded from an archive of object src *)
